@@ -2,6 +2,12 @@
 EXTENDS Binding, Json
 NoNext == FALSE /\ UNCHANGED vars
 KeysToSeq(S) == [p1 |-> "p1" \in S, p2 |-> "p2" \in S, p3 |-> "p3" \in S, p4 |-> "p4" \in S, zz |-> "zz" \in S]
-EmitScn == pc = "recv" => PrintT(<<"SCN", ToJson([sig |-> sig, ctx |-> ctx, flavour |-> flavour, route |-> route,
+AllKinds == Kinds
+DocKinds == {"PK", "KO"}
+BothInputs == {"pos", "named"}
+NamedOnly == {"named"}
+EmitDoc == pc = "recv" => PrintT(<<"SCN", ToJson([doc |-> TRUE, sig |-> sig, ctx |-> ctx, flavour |-> flavour, route |-> route,
+                                                  inp |-> [k |-> inp.k, n |-> inp.n, keys |-> KeysToSeq(inp.keys)]])>>)
+EmitScn == pc = "recv" => PrintT(<<"SCN", ToJson([doc |-> FALSE, sig |-> sig, ctx |-> ctx, flavour |-> flavour, route |-> route,
                                                   inp |-> [k |-> inp.k, n |-> inp.n, keys |-> KeysToSeq(inp.keys)]])>>)
 =============================================================================
